@@ -364,6 +364,23 @@ class Checker(object):
                 if (d.name, d.arity) != tuple(pl):
                     raise Mismatch('sort-declaration', '%s: %s/%d, text has '
                                    '%r' % (what, d.name, d.arity, pl))
+        # the formula the script reports as finally asserted
+        # (SmtLibScript.get_last_formula: assertion-stack semantics)
+        live = rd.live_assertions()
+        names = set(n for n, _ in mc)
+        if 'reset' not in names and 'reset-assertions' not in names:
+            try:
+                with warnings.catch_warnings():
+                    warnings.simplefilter('ignore')
+                    last = script.get_last_formula()
+            except Exception as e:
+                raise Mismatch('last-formula-raises', 'get_last_formula() '
+                               'raised %s: %s' % (common.exc_name(e),
+                                                  str(e)[:120]))
+            want = ('and', None, tuple(live)) if len(live) > 1 else (
+                live[0] if live else B.Bool(True))
+            self.same_value(last, want, 'get_last_formula()')
+            self.rep.count('last_formulas_compared')
         self.rep.count('scripts_compared')
         self.rep.count('commands_compared', len(pc))
 
